@@ -9,7 +9,7 @@ pub struct C03Prop;
 pub static C03: C03Prop = C03Prop;
 
 const CMDS: [&str; 4] = ["c0", "c1", "c2", "c3"];
-const LABELS: [&str; 4] = [":a", ":b", ":c", ":dup"];
+const LABELS: [&str; 6] = [":a", ":b", ":c", ":dup", "::a", ":A"];
 const VARS: [&str; 4] = ["x", "y", "z", "w"];
 
 fn gen_arg(rng: &mut Rng) -> String {
@@ -28,7 +28,15 @@ pub fn gen_line(rng: &mut Rng) -> String {
         0 => String::new(),
         1 => "# comment".to_string(),
         2 => rng.pick(&LABELS).to_string(),
-        3 => "nope arg".to_string(),
+        3 => {
+            // an unknown command, or a pre-processor line (it stays in the instruction list as a
+            // run-time no-op and therefore counts for label positions and goto-line targets)
+            match rng.below(4) {
+                0 | 1 => "nope arg".to_string(),
+                2 => "!include_files".to_string(),
+                _ => "!print p".to_string(),
+            }
+        }
         4 => format!("{} =", rng.pick(&VARS)),
         _ => {
             let mut s = String::new();
@@ -62,7 +70,14 @@ pub fn gen_result(rng: &mut Rng, nlines: usize, k: usize) -> String {
     match rng.below(14) {
         0 | 1 | 2 | 3 | 4 => format!("C/{}", v(rng)),
         5 | 6 => {
-            let l = if rng.chance(1, 6) { ":undefined".to_string() } else { rng.pick(&LABELS).to_string() };
+            // mostly defined labels; sometimes an undefined one, also NEAR MISSES of a defined label
+            // (without its colon, with one colon more): they must fail like any undefined label
+            let l = match rng.below(12) {
+                0 | 1 => ":undefined".to_string(),
+                2 => rng.pick(&LABELS)[1..].to_string(),
+                3 => format!(":{}", rng.pick(&LABELS)),
+                _ => rng.pick(&LABELS).to_string(),
+            };
             format!("GL/{}/{}", v(rng), enc_str(&l))
         }
         7 | 8 => format!("GN/{}/{}", v(rng), rng.below(nlines + 3)),
